@@ -531,6 +531,8 @@ def run_shard(spec):
     else:
         for _ in range(4 if quick else 40):
             st.run_world(rng, HEADER_CLASSES, nblocks=rng.choice([8, 14, 20]), ncand=45 if quick else 60)
+        for _ in range(1 if quick else 8):        # every candidate the first block above the checkpoint horizon
+            st.run_world(rng, HEADER_CLASSES, nblocks=rng.choice([6, 10]), ncand=20 if quick else 40, horizon_at_head=True)
     if spec["shard"] % 4 in (1, 2):
         miner_front_end_lane(st, rng, 2 if quick else 25, period=rng.choice([4, 5, 6]) if lane == "period" else None)
     if lane != "period" and spec["shard"] % 4 == 0:
@@ -591,7 +593,8 @@ def finalize(m, tier):
               ("miner_front_end_found_blocks", c.get("miner_front_end_found_blocks", 0), 20),
               ("accepted_ids_compared_with_target", c.get("accepted_ids_compared_with_target", 0), 500),
               ("tall_world_candidates (heights 64+)", c.get("tall_world_candidates", 0), 24),
-              ("byte_level_offers", c.get("byte_level_offers", 0), 40)]
+              ("byte_level_offers", c.get("byte_level_offers", 0), 40),
+              ("candidates_first_above_horizon", c.get("candidates_first_above_horizon", 0), 100)]
     for cls in list(HEADER_CLASSES) + list(PERIOD_ONLY):
         floors.append(("class " + cls, c.get("by_class", {}).get(cls, 0), 6))
     if tier == "thorough":
